@@ -574,11 +574,13 @@ func emit(all []*node) {
 	for p := 0; p < packages; p++ {
 		fmt.Fprintf(&b, "\t_ \"verif/c18/ex%d\"\n", p)
 	}
+	b.WriteString("\t_ \"verif/c18/exf\"\n")
 	b.WriteString(")\n")
+	forks := emitForks(dir)
 	tsrc, err := format.Source([]byte(b.String()))
 	if err != nil {
 		tsrc = []byte(b.String())
 	}
 	os.WriteFile(dir+"/tables_gen.go", tsrc, 0o644)
-	fmt.Fprintf(os.Stderr, "c18/gen: %d expressions in %d packages (sizes %v)\n", total, packages, load)
+	fmt.Fprintf(os.Stderr, "c18/gen: %d expressions in %d packages (sizes %v) + %d fork expressions in exf\n", total, packages, load, forks)
 }
